@@ -333,7 +333,7 @@ func Check(c *core.Ctx) (map[string]any, []string, error) {
 	}
 	nProg, maxInj := 72, 60
 	if c.Thorough() {
-		nProg, maxInj = 1500, 100000
+		nProg, maxInj = 400, 400
 	}
 	if s := os.Getenv("VERIF_C18_PROGRAMS"); s != "" {
 		fmt.Sscan(s, &nProg)
